@@ -216,7 +216,7 @@ func localOnly(v ssa.Value) bool {
 	return true
 }
 
-var nonRetaining = []string{"github.com/samber/lo.", "sort.Slice", "sort.SliceStable", "slices.", "k8s.io/client-go/util/workqueue.ParallelizeUntil", "k8s.io/client-go/util/retry.OnError"}
+var nonRetaining = []string{"github.com/samber/lo.", "sort.Slice", "sort.SliceStable", "slices.", "k8s.io/client-go/util/workqueue.ParallelizeUntil", "k8s.io/client-go/util/retry.OnError", "sigs.k8s.io/karpenter/pkg/controllers/provisioning/scheduling.parallelizeUntil"}
 
 func closureKeepsPrivate(mc *ssa.MakeClosure, cell ssa.Value) bool {
 	fn, ok := mc.Fn.(*ssa.Function)
